@@ -13,6 +13,7 @@
 #include <vector>
 #include <set>
 #include <unistd.h>
+#include <time.h>
 using namespace asl;
 using namespace vh;
 
@@ -24,6 +25,7 @@ std::vector<Ev> gtrace;
 bool recording = false;
 unsigned long long jstate = 1;
 int jitterPct = 0;
+volatile unsigned long acceptTid = 0;
 
 unsigned jrnd() { jstate ^= jstate << 13; jstate ^= jstate >> 7; jstate ^= jstate << 17; return (unsigned)(jstate >> 11); }
 
@@ -36,6 +38,15 @@ void hook(int kind, const volatile void* addr)
 		Ev e = { kind, addr, (unsigned long)pthread_self() };
 		gtrace.push_back(e);
 		r = jrnd();
+	}
+	if (kind == 20 || kind == 23 || kind == 24) acceptTid = (unsigned long)pthread_self();
+	if (kind == 14 && (unsigned long)pthread_self() == acceptTid && (r & 1)) {
+		// the accept thread is slow to finish (busy, not sleeping: no cancellation point): the destructor must wait for it
+		struct timespec t0, t1;
+		clock_gettime(CLOCK_MONOTONIC, &t0);
+		long ms = 20 + (long)((r >> 8) % 100);
+		do { clock_gettime(CLOCK_MONOTONIC, &t1); } while ((t1.tv_sec - t0.tv_sec) * 1000 + (t1.tv_nsec - t0.tv_nsec) / 1000000 < ms);
+		return;
 	}
 	if (kind == 11 && (r % 3) == 0) {
 		// a handler thread that starts late (the scheduler did not run it yet): up to 0.25 s
@@ -212,6 +223,8 @@ static std::string runScenario(bool seq, bool unixSock, bool both, int nclients,
 	std::map<const volatile void*, int> handlerOf;   // SockClientThread* -> connection index
 	std::map<unsigned long, int> connOfThread;        // handler thread -> connection index
 	int accepted = 0, current = -1;
+	unsigned long accTh = 0;
+	for (size_t i = 0; i < tr.size(); i++) if (tr[i].kind == 20 || tr[i].kind == 23 || tr[i].kind == 24) { accTh = tr[i].th; break; }
 	std::string t;
 	for (size_t i = 0; i < tr.size(); i++) {
 		const Ev& e = tr[i];
@@ -224,6 +237,7 @@ static std::string runScenario(bool seq, bool unixSock, bool both, int nclients,
 		case 25: { int c = e.addr ? (handlerOf.count(e.addr) ? handlerOf[e.addr] : -1) : current; connOfThread[e.th] = c; ev = "b" + str(c); } break;
 		case 26: { int c = e.addr ? (handlerOf.count(e.addr) ? handlerOf[e.addr] : -1) : current; ev = "e" + str(c); } break;
 		case 27: { int c = e.addr ? (handlerOf.count(e.addr) ? handlerOf[e.addr] : -1) : current; ev = "c" + str(c); } break;
+		case 14: if (accTh && e.th == accTh) ev = "E"; break;
 		case 23: ev = "S"; break;
 		case 24: ev = "s"; break;
 		case 28: ev = "R"; break;
